@@ -1,5 +1,5 @@
 #!/usr/bin/env python3
-"""False-alarm sweep: behaviour-preserving changes (seeded/benign-*/patch.diff, written by sub-agents
+"""False-alarm sweep: behaviour-preserving changes (seeded/benign*/patch.diff, written by sub-agents
 that saw only the property text and were asked to refactor the code it is anchored in without
 changing behaviour) are applied one at a time to a scratch copy of the repository; the repository's
 tests and all 17 quick checks are run against each. Every check must exit 0: an alarm here is either
@@ -50,7 +50,7 @@ def main():
     open(cc, "w").write(txt)
     env = dict(os.environ, VERIF_ROOT=st, VERIF_REPO=repo, CARGO_TARGET_DIR=os.path.join(st, "target"), CARGO_NET_OFFLINE="true")
     renv = dict(os.environ, CARGO_TARGET_DIR=os.path.join(st, "repo-target"), CARGO_NET_OFFLINE="true")
-    dirs = sorted(d for d in glob.glob(os.path.join(ROOT, "seeded", "benign-*")) if os.path.isdir(d))
+    dirs = sorted(d for d in glob.glob(os.path.join(ROOT, "seeded", "benign*")) if os.path.isdir(d))
     if a.only:
         dirs = [d for d in dirs if os.path.basename(d) in a.only.split(",")]
     report = {"repo_head": sh("git -C /repo rev-parse --short HEAD")[1].strip(), "verif_head": sh(f"git -C {ROOT} rev-parse --short HEAD")[1].strip(), "tier": a.tier, "results": []}
